@@ -71,7 +71,21 @@ fn main() {
             let pname = arg(&args, "--profile").expect("--profile");
             let cs: u64 = arg(&args, "--case-seed").and_then(|s| s.parse().ok()).expect("--case-seed");
             let thorough = args.iter().any(|a| a == "--thorough");
-            let (prog, tr, rep) = runner::run_case(prop, runner::profile(pname), cs, thorough);
+            let variant: usize = arg(&args, "--variant").and_then(|s| s.parse().ok()).unwrap_or(0);
+            let base = runner::run_case(prop, runner::profile(pname.trim_end_matches("+faults")), cs, thorough);
+            let (prog, tr, rep) = if variant > 0 && pname.ends_with("+faults") {
+                let mut r2 = rng::Rng::new(cs ^ 0xfa17);
+                let mut vs = runner::expand_faults(&base.0, &base.1, thorough, &mut r2);
+                if variant > vs.len() {
+                    eprintln!("variant {variant} out of range ({} variants)", vs.len());
+                    std::process::exit(2);
+                }
+                let (vp, label) = vs.swap_remove(variant - 1);
+                println!("fault variant {variant}: {label}");
+                runner::run_prog(prop, vp, cs, thorough)
+            } else {
+                base
+            };
             if args.iter().any(|a| a == "--trace") {
                 println!("{:#?}", prog);
                 for e in &tr.events {
